@@ -5,6 +5,7 @@ import FsDb.Model.Sys
 import FsDb.Spec.Iso
 import FsDb.Model.Wire
 import FsDb.Model.Dir
+import FsDb.Model.Persist
 /-!
   Line-protocol driver: one operation per line on stdin, one answer per line on stdout.
   Imports model/spec modules only (core Lean) so that it links as an executable.
@@ -278,6 +279,10 @@ def step (st : St) (line : String) : St × String :=
   | "sys" :: args => stepSys st args
   | "mdb" :: args => stepMdb st args
   | "dir" :: args => let r := stepDir st.dirs args; ({ st with dirs := r.1 }, r.2)
+  | "life" :: args =>     -- C04: mutation order of one content id
+    match args.mapM Persist.parse with
+    | none => (st, "bad-op")
+    | some ks => (st, if Persist.ok ks then "ok" else "bad-order")
   | [] => (st, "")
   | _ => (st, "bad-op")
 
